@@ -3,7 +3,7 @@
 Tie: LTL.modelcheck vs the Lean model `LTL.modelcheck` (declarative-atom tableau, PMC/Model/LTL.lean), under several
 PYTHONHASHSEEDs in the thorough tier (C06 covers hash seeds in depth).
 """
-from common import all_structures, proof_coverage, random_structure, rng_for
+from common import all_structures, big_structure, proof_coverage, random_structure, rng_for
 from checks import mc_common
 from gen import formulas as F
 from theorems import get
@@ -32,6 +32,18 @@ def cases_for(res, rng):
         K = random_structure(rng, 5)
         cases.append((K, ('A', F.rand_ltl_path(rng, rng.choice([2, 3, 3, 4]), max_temporal=rng.choice([2, 3, 4]))),
                       'text' if i % 4 == 0 else 'obj'))
+    # scale: more states with few temporal operators; more temporal operators / wide n-ary on tiny structures
+    for i in range(150 if quick else 1500):
+        K = big_structure(rng, 7, 9)
+        cases.append((K, ('A', F.rand_ltl_path(rng, 3, max_temporal=2)), 'obj'))
+    tiny = [K for n in (1, 2) for K in all_structures(n)]
+    for i in range(150 if quick else 1500):
+        K = rng.choice(tiny)
+        if i % 3 == 0:
+            g = (rng.choice(['and', 'or']),) + tuple(F.rand_ltl_path(rng, 1, max_temporal=1) for _ in range(rng.choice([4, 5, 6])))
+        else:
+            g = F.rand_ltl_path(rng, rng.choice([5, 6]), max_temporal=rng.choice([5, 6]))
+        cases.append((K, ('A', g), 'obj'))
     return cases, n_exh
 
 
